@@ -341,6 +341,16 @@ def extract(repo):
                     and re.sub(r"\s+", "", assigns[1]) == "strlen(v->name->symbol.name)"
                     and bool(re.search(r"if\s*\(\s*strlen\(\s*v->name->symbol\.name\s*\)\s*>\s*max_indent\s*\)", head)))
 
+    # ---- spellings of the constants PI and e at both printers (EXPR__out: wrap, EXPRstring: strcpy into the buffer)
+    const_sp = []
+    for cname in ("PI", "E"):
+        for site, rx in (("wrap", r'e\s*==\s*LITERAL_%s\s*\)\s*\{\s*wrap\(\s*"([^"]*)"\s*\)' % cname),
+                         ("buffer", r'e\s*==\s*LITERAL_%s\s*\)\s*\{\s*strcpy\(\s*buffer\s*,\s*"([^"]*)"\s*\)' % cname)):
+            m = re.findall(rx, pe)
+            if len(m) != 1:
+                raise ValueError(f"spelling of LITERAL_{cname} ({site}) not found in pretty_expr.c")
+            const_sp.append((cname, site, m[0]))
+
     # ---- scanner tables: keyword table of lexact.c, operator/punctuation rules of expscan.l
     lx = open(os.path.join(repo, "src/express/lexact.c")).read()
     kwtab = re.findall(r'\{\s*"([A-Z_0-9]+)"\s*,\s*(TOK_\w+)\s*\}', lx)
@@ -395,6 +405,10 @@ def extract(repo):
     L.append("def remarkSites : List (String × String × Bool) := " + _llist([f"({_lstr(a)}, {_lstr(b)}, {'true' if c else 'false'})" for a, b, c in remark_sites]))
     L.append("/-- `SCOPElocals_out` sizes the name column by the longest local name (so `if( !max_indent ) return;` means: no locals) -/")
     L.append(f"def localsWidthIsNameLength : Bool := {'true' if locals_plain else 'false'}")
+    L.append("/-- what exppp writes for the constants: (constant, printer: wrap = EXPR__out / buffer = EXPRstring, text) -/")
+    L.append("def constSpellings : List (String × String × String) := " + _llist([f"({_lstr(a)}, {_lstr(b)}, {_lstr(c)})" for a, b, c in const_sp]))
+    L.append(f"def piText : String := {_lstr([c for a, b, c in const_sp if a == 'PI' and b == 'wrap'][0])}")
+    L.append(f"def eText : String := {_lstr([c for a, b, c in const_sp if a == 'E' and b == 'wrap'][0])}")
     L.append("/-- keyword table of the scanner (lexact.c): (word, token) -/")
     L.append("def scannerKeywords : List (String × String) := " + _llist([f"({_lstr(a)}, {_lstr(b)})" for a, b in kwtab]))
     L.append("/-- operator and punctuation rules of the scanner (expscan.l): (spelling, token) -/")
